@@ -933,6 +933,8 @@ def gen_pool(rng):
         axes[i][rng.choice([1, 2])] = rng.choice([0, -1])
     nb = rng.choice([0, 1, 1, 2])
     batch = [rng.choice([1, 2, 3]) for _ in range(nb)]
+    if nb and rng.random() < 0.1:
+        batch[rng.randrange(nb)] = 0   # an empty batch / channel axis: a valid configuration with an empty result
     cfg = {"batch": batch, "axes": axes, "wform": rng.choice(["tuple", "list"]), "sform": rng.choice(["tuple", "int"]),
            "seed": rng.randrange(10 ** 6)}
     if rng.random() < 0.2:
@@ -1089,9 +1091,14 @@ def float_case(args):
         elif layer == "multiclass_hinge":
             N, C = rng.randint(1, 5), rng.randint(2, 5)
             x = nrng.normal(size=(N, C)) * 2
+            xdt = "float64"
+            if rng.random() < 0.3:
+                # integer-valued scores are valid inputs of the documented formula
+                xdt = rng.choice(["int64", "int32"])
+                x = np.round(x * 2).astype(xdt)
             y = nrng.integers(0, C, size=N)
-            hinge = rng.choice([1.0, 0.5, 2.0])
-            info.update(N=N, C=C, hinge=hinge)
+            hinge = rng.choice([1.0, 0.5, 2.0, 2])
+            info.update(N=N, C=C, hinge=hinge, dtype=xdt)
             got = multiclass_hinge(x, y, hinge=hinge).data
             ref = sum(max(0.0, x[i, j] - x[i, y[i]] + hinge) for i in range(N) for j in range(C) if j != y[i]) / N
             if not close(got, ref):
